@@ -298,6 +298,52 @@ def helper_contracts(fns):
     check("ctor-helper-contains", "Builder::contains asks the table itself for the key", "::contains", r"compact::Builder",
           lambda ps, unk: (len(ps) == 1 and not unk and ps[0].env["_0"][0] == "call" and ps[0].env["_0"][1].startswith("IndexMap::<") and "contains_key" in ps[0].env["_0"][1]
                            and ps[0].env["_0"][2] == [("field", sym("ctor-helper-contains", 1), 0), sym("ctor-helper-contains", 2)], repr(ps[0].env.get("_0"))[:200]))
+    # iteration over the tables and the conversion closures of from_root
+    def closure_rets(prefix):
+        out = {}
+        for k_, v in fns.items():
+            if k_.startswith(prefix) and "{closure#" in k_[len(prefix):]:
+                ex_ = mir.Executor(mir.Fn("c", v), max_visits=2)
+                ps_ = ex_.run()
+                out[k_] = (ps_[0].env.get("_0") if len(ps_) == 1 and not ex_.unknown else None)
+        return out
+    A2 = ("sym", "c:_2")
+    it_b = [k_ for k_ in fns if k_.startswith("compact::") and k_.endswith("::next::{closure#0}")]
+    rets = {k_: closure_rets(k_.rsplit("::{closure#0}", 1)[0]).get(k_) for k_ in it_b}
+    plain = [r for r in rets.values() if r == ("tuple", [("field", A2, 0), ("field", ("field", A2, 1), 1)])]
+    opt = [r for r in rets.values() if isinstance(r, tuple) and r[0] == "tuple" and len(r[1]) == 2 and r[1][1] == ("field", ("field", A2, 1), 1)
+           and r[1][0][0] == "call" and r[1][0][1].endswith("::ok") and r[1][0][2] == [("field", A2, 0)]]
+    nx_ok = 0
+    for k_ in [k2 for k2 in fns if k2.startswith("compact::") and k2.endswith("::next")]:
+        ex_ = mir.Executor(mir.Fn("n", fns[k_]), max_visits=2)
+        ps_ = ex_.run()
+        r_ = ps_[0].env.get("_0") if len(ps_) == 1 and not ex_.unknown else None
+        if (isinstance(r_, tuple) and r_[0] == "call" and r_[1].startswith("Option::<") and "::map::<" in r_[1] and r_[2][0][0] == "call" and r_[2][0][1].startswith("<indexmap::map::IntoIter<")
+                and r_[2][0][1].endswith("as Iterator>::next") and r_[2][0][2] == [("field", ("sym", "n:_1"), 0)] and r_[2][1][0] == "closure"):
+            nx_ok += 1
+    plain = plain if nx_ok == 2 else []
+    out.append(("ctor-helper-table-iter", "iterating a table yields (key, value) - for the chance table (label or None, value) - in the map's (insertion = index) order, dropping only the stored index",
+                len(it_b) == 2 and len(plain) == 1 and len(opt) == 1, repr(list(rets.values()))[:240]))
+    fr = next((k_ for k_ in fns if k_.endswith("::from_root")), None)
+    cr = closure_rets(fr) if fr else {}
+    vals = list(cr.values())
+
+    def shape(r):
+        if r == ("field", A2, 1):
+            return "value-of-pair"
+        if isinstance(r, tuple) and r[0] == "call" and r[1].startswith("PlayerInfosetData::<I, A>::new") and r[2] == [("field", A2, 0), ("field", A2, 1)]:
+            return "data(label, builder)"
+        if isinstance(r, tuple) and r[0] == "call" and "collect::<" in r[1]:
+            inner = r[2][0]
+            if inner[0] == "call" and "as Iterator>::map::<PlayerInfosetData" in inner[1] and inner[2][0][0] == "call" and inner[2][0][1].endswith("as IntoIterator>::into_iter") and inner[2][0][2] == [A2]:
+                return "collect(map(table))"
+            if inner[0] == "call" and inner[1].endswith("as IntoIterator>::into_iter") and inner[2] == [A2]:
+                return "collect(table)"
+        return "?" + repr(r)[:80]
+    shapes = sorted(shape(r) for r in vals)
+    out.append(("ctor-helper-from-root-tables", "from_root converts each builder table element-wise and in order: chance values, (label, builder) -> PlayerInfosetData::new(label, builder), single-action pairs",
+                shapes == sorted(["value-of-pair", "data(label, builder)", "collect(map(table))", "collect(table)"]), str(shapes)))
+
     # Game::from_root: the set-up around the recursion
     def from_root(ps, unk):
         if unk:
